@@ -116,7 +116,7 @@ class TaskResult:
         for lab in ctx.labels:
             self.labels[lab] += 1
         if outcome == 'rejected':
-            self.labels['rejected:' + info.why.split(':')[0]] += 1
+            self.labels['rejected:' + re.sub(r'[0-9]+(\.[0-9]+)?(e[+-]?[0-9]+)?', '#', info.why)[:60]] += 1
         if outcome == 'borderline':
             self.labels['borderline'] += 1
         if ctx._nontrivial and outcome in ('ok', 'violation'):
